@@ -1,0 +1,68 @@
+//! Verification hooks.  Compiled only with `--cfg rescrv_blue_verif`; with the guard off this
+//! module does not exist and no code path changes.
+//!
+//! * an event log with a global order (observer only): `WorkCoalescingQueue::do_work` reports
+//!   who linked, who decided to park on what, who woke, who led which batch, every hand-out, and
+//!   the leader's unlink / clear / notify_head;
+//! * pause points: `set_pause(tag, arg1, micros)` makes the thread that emits `(tag, [_, arg1, _])`
+//!   sleep right there (while holding whatever it holds), which widens windows that are a few
+//!   instructions wide otherwise — e.g. between a member's reading `Stolen` and its parking.
+
+use std::cell::Cell;
+use std::sync::Mutex;
+use std::sync::atomic::{AtomicU64, Ordering};
+
+static EVENT_SEQ: AtomicU64 = AtomicU64::new(0);
+static EVENTS: Mutex<Vec<(u64, u64, &'static str, [u64; 3])>> = Mutex::new(Vec::new());
+static EVENTS_ON: AtomicU64 = AtomicU64::new(0);
+static PAUSES: Mutex<Vec<(&'static str, u64, u64)>> = Mutex::new(Vec::new());
+static PAUSES_ON: AtomicU64 = AtomicU64::new(0);
+
+fn thread_num() -> u64 {
+    thread_local! { static ID: Cell<u64> = const { Cell::new(0) }; }
+    static NEXT: AtomicU64 = AtomicU64::new(1);
+    ID.with(|c| {
+        if c.get() == 0 {
+            c.set(NEXT.fetch_add(1, Ordering::SeqCst));
+        }
+        c.get()
+    })
+}
+
+pub fn events_enable(on: bool) {
+    EVENTS_ON.store(on as u64, Ordering::SeqCst);
+}
+
+/// Sleep `micros` at every `emit(tag, [_, arg1, _])`; `micros == 0` removes the pause.
+pub fn set_pause(tag: &'static str, arg1: u64, micros: u64) {
+    let mut p = PAUSES.lock().unwrap();
+    p.retain(|x| !(x.0 == tag && x.1 == arg1));
+    if micros > 0 {
+        p.push((tag, arg1, micros));
+    }
+    PAUSES_ON.store(p.len() as u64, Ordering::SeqCst);
+}
+
+/// Record one event (observer only: never changes a code path), then pause if asked to.
+pub fn emit(tag: &'static str, args: [u64; 3]) {
+    if EVENTS_ON.load(Ordering::SeqCst) != 0 {
+        let mut ev = EVENTS.lock().unwrap();
+        let seq = EVENT_SEQ.fetch_add(1, Ordering::SeqCst);
+        ev.push((seq, thread_num(), tag, args));
+    }
+    if PAUSES_ON.load(Ordering::SeqCst) != 0 {
+        let micros = PAUSES
+            .lock()
+            .unwrap()
+            .iter()
+            .find(|x| x.0 == tag && x.1 == args[1])
+            .map(|x| x.2);
+        if let Some(m) = micros {
+            std::thread::sleep(std::time::Duration::from_micros(m));
+        }
+    }
+}
+
+pub fn take_events() -> Vec<(u64, u64, &'static str, [u64; 3])> {
+    std::mem::take(&mut *EVENTS.lock().unwrap())
+}
